@@ -463,7 +463,7 @@ def c05_checks(case, replay_case, feats, value, data, world, rpaths, schema_ref,
                 info = rpaths.get(oracles.key_path(p))
                 st_ = (static_types or {}).get(oracles.key_path(p))
                 if t is not None and info is not None and info["count"] == 1 and (static_types is None or st_ == {str(t)}):
-                    conditional = info["field_directive"]
+                    conditional = info["field_directive"] or info["conditional"]  # directly, or through a conditional fragment it sits in
                     try:
                         hints = typing.get_type_hints(type(obj), include_extras=True)
                         ann = hints[fname]
